@@ -158,6 +158,16 @@ pub fn run_history(cap: u64, ops: &[Op], probe_recent: bool, viol: &mut Vec<Viol
 		results.push(match r { Some(v) => v.to_string(), None => "-".into() });
 	}
 	let (len, _, last) = dbg_fields(&c);
+	// capacity as a caller sees it (no hooks): after the history, at most `cap` of the keys ever used can still be answered,
+	// and every answer is a value that was stored under that key
+	{
+		let mut keys: Vec<u64> = ops.iter().map(|o| match o { Op::Get(k) | Op::Add(k, _) | Op::Gos(k, _) => *k }).collect(); keys.sort(); keys.dedup();
+		// most recently used key first: a lookup shortcut for repeated keys must not keep an evicted entry alive
+		if let Some(lastk) = ops.iter().rev().find_map(|o| match o { Op::Get(k) => Some(*k), _ => None }) { keys.retain(|k| *k != lastk); keys.insert(0, lastk); }
+		let mut hits = 0u64;
+		for k in &keys { if let Some(v) = c.get(k) { hits += 1; if !supplied.contains(&(*k, v)) { viol.push(Violation { kind: "provenance", cap, ops: ops.to_vec(), detail: format!("after the history, key {k} answers {v}, never stored under it") }); } } }
+		if hits > cap { viol.push(Violation { kind: "capacity-observable", cap, ops: ops.to_vec(), detail: format!("after the history {hits} different keys are still answered by get, capacity is {cap}") }); }
+	}
 	format!("cache {cap} {} => {} len={len} last={last}", fmt_ops(ops), results.join(","))
 }
 
